@@ -130,7 +130,7 @@ func (ri *recInfo) forwardingCalls(fn *ssa.Function) (calls []*ssa.Call) {
 }
 
 func checkC14Accounting(w *World, r *Report, ri *recInfo) {
-	ru := r.Rule("C14.1", "bytes are accounted on every exit: for each call of a recorder method that forwards body bytes to the underlying writer, the returned count is added to size on every path to the return; only comparisons of that count with 0 may skip the addition (never the error)", 3)
+	ru := r.Rule("C14.1", "bytes are accounted on every exit: for each call of a recorder method that forwards body bytes to the underlying writer, the returned count is added to size on every path to the return; only comparisons of that count with 0 may skip the addition (never the error)", 2)
 	for _, fn := range w.MethodsOf("recorder") {
 		for _, c := range ri.forwardingCalls(fn) {
 			r.Analysed(FuncName(fn))
@@ -219,7 +219,7 @@ func checkC14Accounting(w *World, r *Report, ri *recInfo) {
 }
 
 func checkC14Header(w *World, r *Report, ri *recInfo) {
-	ru := r.Rule("C14.2", "header discipline: a final status is forwarded to the underlying writer only while nothing has been written (size == notWritten), informational statuses (1xx except 101) pass through without touching the state, and size leaves notWritten only together with a forwarded header or a positive byte count", 6)
+	ru := r.Rule("C14.2", "header discipline: a final status is forwarded to the underlying writer only while nothing has been written (size == notWritten), informational statuses (1xx except 101) pass through without touching the state, and size leaves notWritten only together with a forwarded header or a positive byte count", 3)
 	for _, fn := range w.MethodsOf("recorder") {
 		recv := ssa.Value(fn.Params[0])
 		eachInstr(fn, func(in ssa.Instruction) {
@@ -356,7 +356,7 @@ func checkC14Header(w *World, r *Report, ri *recInfo) {
 }
 
 func checkC14Paths(w *World, r *Report, ri *recInfo) {
-	ru := r.Rule("C14.3", "fast and fallback paths agree: the ReadFrom fallback copies through the recorder's own Write (so it is accounted like any write); FlushError forwards the pending header through the recorder before flushing, in both flusher forms", 3)
+	ru := r.Rule("C14.3", "fast and fallback paths agree: the ReadFrom fallback copies through the recorder's own Write (so it is accounted like any write); FlushError forwards the pending header through the recorder before flushing, in both flusher forms", 2)
 	rf := w.Method("recorder", "ReadFrom")
 	found := false
 	eachInstr(rf, func(in ssa.Instruction) {
@@ -437,7 +437,7 @@ func checkC14Paths(w *World, r *Report, ri *recInfo) {
 }
 
 func checkC14Capabilities(w *World, r *Report, ri *recInfo) {
-	ru := r.Rule("C14.4", "capability template: each optional capability type-asserts the underlying writer, delegates to the asserted value on success and otherwise returns http.ErrNotSupported or an error wrapping it", 6)
+	ru := r.Rule("C14.4", "capability template: each optional capability type-asserts the underlying writer, delegates to the asserted value on success and otherwise returns http.ErrNotSupported or an error wrapping it", 3)
 	errNS := w.Func("ErrNotSupported")
 	// ErrNotSupported() wraps http.ErrNotSupported with %w
 	okWrap := false
@@ -510,7 +510,7 @@ func checkC14Capabilities(w *World, r *Report, ri *recInfo) {
 }
 
 func checkC14Helpers(w *World, r *Report) {
-	ru := r.Rule("C14.5", "Context helpers: String, Blob and Stream set the Content-Type header, then WriteHeader(code), then write the body, through the context's writer; Redirect returns an error unless 300 <= code <= 308", 4)
+	ru := r.Rule("C14.5", "Context helpers: String, Blob and Stream set the Content-Type header, then WriteHeader(code), then write the body, through the context's writer; Redirect returns an error unless 300 <= code <= 308", 2)
 	for _, name := range []string{"String", "Blob", "Stream"} {
 		fn := w.Method("cTx", name)
 		r.Analysed(FuncName(fn))
